@@ -43,6 +43,12 @@ Proof.
   intros H Hf. apply Qcnot_le_lt. intros Ha. apply (Qcle_not_lt _ _ (Qcmul_nonneg _ _ Ha (Qclt_le_weak _ _ Hf)) H).
 Qed.
 
+Tactic Notation "brej" hyp(H) "as" simple_intropattern(x) ident(E) :=
+  match type of H with
+  | bind ?m _ = Rej _ =>
+      destruct m as [x| |] eqn:E; cbn [bind] in H; [ | nrx0 E | discriminate H ]
+  end.
+
 Section Ahead.
   Variable last : Z.
   Variable dflt start : aff -> Qc.
@@ -73,8 +79,8 @@ Section Ahead.
     { intros af. rewrite net_after_snoc. reflexivity. }
     destruct (t_act x) as [sh aps com rate crate | sh aps com rate crate sp | aps rate | sh aps | post pre io] eqn:Ea.
     - (* Buy *)
-      bind_as H as b E1. apply gez_mul_exact in E1 as [-> _].
-      bind_as H as eop E2. bind_as H as na E3. apply gez_add_exact in E3 as [-> _]. bind_as H as acq E4.
+      brej H as b E1. apply gez_mul_exact in E1 as [-> _].
+      brej H as eop E2. brej H as na E3. apply gez_add_exact in E3 as [-> _]. brej H as acq E4.
       apply Hlift. eapply IH; [apply adj_inv_keep; [exact Hadj | rewrite Ea; reflexivity] | exact Hps' | exact Hpw | | exact H].
       intros af. rewrite act_update, Hnet. unfold net_shares, buy_shares, sell_shares. rewrite Ea.
       rewrite (N.eqb_sym (af_id (t_af x)) (af_id af)).
@@ -82,7 +88,7 @@ Section Ahead.
       + fold (act s dflt (t_af x)). rewrite (Hact (t_af x)), (Hadj (t_af x)), e, (start_id _ _ e). ring.
       + rewrite (Hact af). ring.
     - (* Sell *)
-      bind_as H as b E1. apply gez_mul_exact in E1 as [-> _].
+      brej H as b E1. apply gez_mul_exact in E1 as [-> _].
       cbn [a_sub exact bind] in H.
       destruct (Qcltb (sc_eop s - sh * adj_of (t_af x) adj) 0); [discriminate H|].
       fold (act s dflt (t_af x)) in H.
@@ -116,8 +122,8 @@ Section Ahead.
       destruct (N.eqb _ _); ring.
     - (* Split *)
       unfold split_factor in H.
-      bind_as H as f E1. apply pos_div_exact in E1 as (-> & _ & _).
-      bind_as H as nsa E2. apply pos_div_exact in E2 as (-> & _ & _).
+      brej H as f E1. apply pos_div_exact in E1 as (-> & _ & _).
+      brej H as nsa E2. apply pos_div_exact in E2 as (-> & _ & _).
       apply Hlift. eapply IH; [ | exact Hps' | exact Hpw | | exact H].
       + apply adj_inv_step; [exact Hadj | rewrite Ea; reflexivity|]. unfold split_factor_of. rewrite Ea. reflexivity.
       + intros af. rewrite Hnet. unfold act in *. cbn [sc_active]. rewrite (Hact af).
@@ -146,17 +152,18 @@ Proof.
     + exfalso. eapply bwd_scan_norej. exact E2.
     + discriminate H.
   - inversion H; subst r. clear H.
-    eapply (fwd_scan_af_neg _ _ (shares_after_sale st t sold)) in E1.
-    + destruct E1 as (w1 & x & w2 & n & p & c & r & cr & sp & Ew & Ea & Hlt).
-      exists w1, x, w2, n, p, c, r, cr, sp. cbn [app] in Hlt. auto.
-    + intros af af' e. unfold latest_for. rewrite e. reflexivity.
-    + intros af af' e. unfold shares_after_sale, latest_for. rewrite e. reflexivity.
-    + exact adj_inv_nil.
-    + constructor.
-    + exact Hp.
-    + intros af. unfold act, shares_after_sale. cbn [sc_active alookup net_after].
+    match type of E1 with fwd_scan exact ?l ?d aft [] ?s0 = _ => set (dfl := d) in *; set (s0' := s0) in * end.
+    assert (Hd : forall af af', af_id af = af_id af' -> dfl af = dfl af').
+    { intros af af' e. unfold dfl, latest_for. rewrite e. reflexivity. }
+    assert (Hs : forall af af', af_id af = af_id af' -> shares_after_sale st t sold af = shares_after_sale st t sold af').
+    { intros af af' e. unfold shares_after_sale, latest_for. rewrite e. reflexivity. }
+    assert (Hact : forall af, act s0' dfl af = shares_after_sale st t sold af + net_after (af_id af) [] []).
+    { intros af. unfold act, shares_after_sale, s0', dfl. cbn [sc_active alookup net_after].
       destruct (N.eqb (af_id af) (af_id (t_af t))) eqn:E.
-      * apply N.eqb_eq in E. unfold latest_for. rewrite E. ring.
-      * ring.
+      - apply N.eqb_eq in E. unfold latest_for. rewrite E. ring.
+      - ring. }
+    destruct (fwd_scan_af_neg _ dfl (shares_after_sale st t sold) Hs aft [] s0' [] adj_inv_nil (Forall_nil _) Hp Hact E1)
+      as (w1 & x & w2 & n & p & c & r & cr & sp & Ew & Ea & Hlt).
+    exists w1, x, w2, n, p, c, r, cr, sp. cbn [app] in Hlt. auto.
   - discriminate H.
 Qed.
